@@ -421,6 +421,279 @@ theorem simple_sound (cx : Ctx code A exact s f rest c fa a B bs hd')
       exact ⟨fun e => by have := h1 e; omega, h2⟩
   · cases hsucc
 
+/-- Falling through from an instruction that is not `copyPush (int _)` never lands on a
+dynamic-count instruction. -/
+theorem site_ft (hi : c[f.ip]? = some (i, sp)) (hne : ∀ v, i ≠ .copyPush (.int v)) {stk : List SVal} :
+    ∀ i' sp' n, c[f.ip + 1]? = some (i', sp') → usesArgc i' = true → argcAt c (f.ip + 1) = some n →
+      ∃ o tl, stk = ⟨.int (I64.ofInt n), o⟩ :: tl := by
+  intro i' sp' n _ _ hn
+  exact (site_fallthrough hi hne hn).elim
+
+/-- A jump never lands on a dynamic-count instruction. -/
+theorem site_tg (cx : Ctx code A exact s f rest c fa a B bs hd') (hi : c[f.ip]? = some (i, sp)) {t : Nat}
+    (hj : i = .jump t ∨ i = .jumpIfFalse t ∨ ∃ fn, i = .setTry fn t) {a' : Ann}
+    (hp : fa.pts[t]? = some (some a')) {stk : List SVal} :
+    ∀ i' sp' n, c[t]? = some (i', sp') → usesArgc i' = true → argcAt c t = some n →
+      ∃ o tl, stk = ⟨.int (I64.ofInt n), o⟩ :: tl := by
+  intro i' sp' n hi' hu _
+  exact (site_target cx.hv cx.look hp hi' hu (isTarget_of hi hj)).elim
+
+theorem jump_sound (cx : Ctx code A exact s f rest c fa a B bs hd')
+    (po : PointOK code A f.fn c fa f.ip a (.jump t) sp pops l) (lim : Limits) :
+    Sound code A exact (a.hs ≠ []) (step code lim s (.jump t) sp) := by
+  have hsucc := po.succ
+  simp only [succs, Option.some.injEq, Prod.mk.injEq] at hsucc
+  obtain ⟨rfl, rfl⟩ := hsucc
+  have hflow := po.flow (t, a) (by simp)
+  rw [step_jump _ _ _ _ _ _ _ cx.calls]
+  exact cx.intra rfl hflow cx.hcmp cx.mp cx.hd (site_tg cx po.instr (Or.inl rfl) hflow)
+
+theorem nonempty_of_cmp (cx : Ctx code A exact s f rest c fa a B bs hd') (h : 1 ≤ a.h) :
+    ∃ x tl, s.stack = x :: tl := by
+  have := cmp_le cx.hcmp
+  cases hs : s.stack with
+  | nil => rw [hs] at this; simp at this; omega
+  | cons x tl => exact ⟨x, tl, rfl⟩
+
+theorem jumpIfFalse_sound (cx : Ctx code A exact s f rest c fa a B bs hd')
+    (po : PointOK code A f.fn c fa f.ip a (.jumpIfFalse t) sp pops l) (lim : Limits) :
+    Sound code A exact (a.hs ≠ []) (step code lim s (.jumpIfFalse t) sp) := by
+  have hsucc := po.succ
+  simp only [succs] at hsucc
+  split at hsucc
+  · rename_i hp
+    simp only [Option.some.injEq, Prod.mk.injEq] at hsucc
+    obtain ⟨rfl, rfl⟩ := hsucc
+    have hf1 := po.flow (f.ip + 1, { a with h := a.h - 1 }) (by simp)
+    have hf2 := po.flow (t, { a with h := a.h - 1 }) (by simp)
+    obtain ⟨x, tl, hs⟩ := nonempty_of_cmp cx hp
+    refine (step_jumpIfFalse code lim s t sp x tl hs).mono' ?_ ?_ ?_
+    · rintro s' _ ⟨h1, ⟨h2, h3, h4⟩, h5⟩
+      have hc : cmp exact (B.b + (a.h - 1)) s'.stack.length := by
+        have := cmp_shift (q := 0) cx.hcmp hp (len' := s'.stack.length) (by rw [h1, hs]; simp)
+        simpa using this
+      rcases h5 with h5 | ⟨f', fr, h5, h6⟩
+      · exact cx.intra (by rw [h5, cx.adv]) hf1 hc (by rw [h3, cx.mp]) (by rw [h2, cx.hd])
+          (site_ft po.instr (by intro v; simp))
+      · rw [cx.calls] at h5
+        simp only [List.cons.injEq] at h5
+        obtain ⟨rfl, rfl⟩ := h5
+        exact cx.intra h6 hf2 hc (by rw [h3, cx.mp]) (by rw [h2, cx.hd])
+          (site_tg cx po.instr (Or.inr (Or.inl rfl)) hf2)
+    · intro _ _ _ h; exact h.elim
+    · intro _ _ _ h; exact h
+  · cases hsucc
+
+theorem getVar_sound (cx : Ctx code A exact s f rest c fa a B bs hd') {k : Nat}
+    (po : PointOK code A f.fn c fa f.ip a (.getVar k) sp pops l) (lim : Limits)
+    (hlim : s.mp < (lim.memory : Int)) :
+    Sound code A exact (a.hs ≠ []) (step code lim s (.getVar k) sp) := by
+  have hsucc := po.succ
+  simp only [succs] at hsucc
+  split at hsucc
+  · rename_i hk
+    simp only [Option.some.injEq, Prod.mk.injEq] at hsucc
+    obtain ⟨rfl, rfl⟩ := hsucc
+    have hf1 := po.flow (f.ip + 1, { a with h := a.h + 1 }) (by simp)
+    have hmp := cx.mp
+    have hmb := cx.mb
+    rcases step_getVar code lim s k sp with ⟨h1, _⟩ | ⟨_, ⟨v, _, h2⟩ | ⟨_, h2⟩⟩
+    · exact absurd ⟨by omega, by omega⟩ h1
+    · rw [h2]
+      refine cx.intra (by simp [cx.adv]) hf1 ?_ (by simp [cx.mp]) (by simp [cx.hd])
+        (site_ft po.instr (by intro v; simp))
+      have := cmp_shift (p := 0) (q := 1) cx.hcmp (Nat.zero_le _)
+        (len' := (advance (push1 s v)).stack.length) (by simp)
+      simpa using this
+    · rw [h2]; simp [Sound, Sat3, NoBad]
+  · cases hsucc
+
+theorem setVar_sound (cx : Ctx code A exact s f rest c fa a B bs hd') {k : Nat}
+    (po : PointOK code A f.fn c fa f.ip a (.setVar k) sp pops l) (lim : Limits)
+    (hlim : s.mp < (lim.memory : Int)) :
+    Sound code A exact (a.hs ≠ []) (step code lim s (.setVar k) sp) := by
+  have hsucc := po.succ
+  simp only [succs] at hsucc
+  split at hsucc
+  · rename_i hk
+    simp only [Option.some.injEq, Prod.mk.injEq] at hsucc
+    obtain ⟨rfl, rfl⟩ := hsucc
+    have hf1 := po.flow (f.ip + 1, { a with h := a.h - 1 }) (by simp)
+    have hmp := cx.mp
+    have hmb := cx.mb
+    obtain ⟨x, tl, hs⟩ := nonempty_of_cmp cx hk.2
+    rcases step_setVar code lim s k sp with ⟨h0, _⟩ | ⟨x', tl', hs', ⟨h1, _⟩ | ⟨_, h2⟩⟩
+    · rw [hs] at h0; cases h0
+    · exact absurd ⟨by omega, by omega⟩ h1
+    · rw [hs] at hs'; cases hs'
+      rw [h2]
+      refine cx.intra (by simp [memSet, cx.adv]) hf1 ?_ (by simp [memSet, cx.mp]) (by simp [memSet, cx.hd])
+        (site_ft po.instr (by intro v; simp))
+      have := cmp_shift (p := 1) (q := 0) cx.hcmp hk.2
+        (len' := (advance (memSet { s with stack := tl } (s.mp - (k : Int)) x.v)).stack.length)
+        (by simp [memSet, hs])
+      simpa using this
+  · cases hsucc
+
+theorem setTry_sound (cx : Ctx code A exact s f rest c fa a B bs hd') {fn : String}
+    (po : PointOK code A f.fn c fa f.ip a (.setTry fn t) sp pops l) (lim : Limits) :
+    Sound code A exact (a.hs ≠ []) (step code lim s (.setTry fn t) sp) := by
+  have hsucc := po.succ
+  simp only [succs] at hsucc
+  split at hsucc
+  · rename_i hfn
+    simp only [Option.some.injEq, Prod.mk.injEq] at hsucc
+    obtain ⟨rfl, rfl⟩ := hsucc
+    have hf1 := po.flow (f.ip + 1, { a with hs := (t, a.h) :: a.hs }) (by simp)
+    rw [step_setTry]
+    refine cx.intra (by simp [cx.adv]) hf1 (by simpa using cx.hcmp) (by simp [cx.mp]) ?_
+      (site_ft po.instr (by intro v; simp))
+    simp [hmap, cx.hd, hfn]
+  · cases hsucc
+
+theorem popTry_sound (cx : Ctx code A exact s f rest c fa a B bs hd')
+    (po : PointOK code A f.fn c fa f.ip a .popTry sp pops l) (lim : Limits) :
+    Sound code A exact (a.hs ≠ []) (step code lim s .popTry sp) := by
+  have hsucc := po.succ
+  simp only [succs] at hsucc
+  split at hsucc
+  · rename_i lh hs' hhs
+    simp only [Option.some.injEq, Prod.mk.injEq] at hsucc
+    obtain ⟨rfl, rfl⟩ := hsucc
+    have hf1 := po.flow (f.ip + 1, { a with hs := hs' }) (by simp)
+    have hh : s.handlers = ⟨f.fn, lh.1⟩ :: (hmap f.fn hs' ++ hd') := by
+      rw [cx.hd, hhs]; simp [hmap]
+    rw [step_popTry _ _ _ _ _ _ hh]
+    exact cx.intra (by simp [cx.adv]) hf1 (by simpa using cx.hcmp) (by simp [cx.mp]) (by simp)
+      (site_ft po.instr (by intro v; simp))
+  · cases hsucc
+
+theorem addMp_sound (cx : Ctx code A exact s f rest c fa a B bs hd') {n : Int}
+    (po : PointOK code A f.fn c fa f.ip a (.addMp n) sp pops l) (lim : Limits) :
+    Sound code A exact (a.hs ≠ []) (step code lim s (.addMp n) sp) := by
+  have hsucc := po.succ
+  simp only [succs] at hsucc
+  split at hsucc
+  · rename_i hn
+    simp only [Option.some.injEq, Prod.mk.injEq] at hsucc
+    obtain ⟨rfl, rfl⟩ := hsucc
+    have hf1 := po.flow (f.ip + 1, { a with off := ((a.off : Int) + n).toNat }) (by simp)
+    rcases step_addMp code lim s n sp with ⟨_, h2⟩ | ⟨_, msg, h2⟩
+    · rw [h2]
+      refine cx.intra (by simp [cx.adv]) hf1 (by simpa using cx.hcmp) ?_ (by simp [cx.hd])
+        (site_ft po.instr (by intro v; simp))
+      simp only [advance_mp]
+      rw [cx.mp, Int.toNat_of_nonneg hn]; omega
+    · rw [h2]
+      intro msg' tsp h; cases h
+  · cases hsucc
+
+theorem throw_sound (cx : Ctx code A exact s f rest c fa a B bs hd')
+    (po : PointOK code A f.fn c fa f.ip a .throw sp pops l) (lim : Limits) :
+    Sound code A exact (a.hs ≠ []) (step code lim s .throw sp) := by
+  have hsucc := po.succ
+  simp only [succs] at hsucc
+  split at hsucc
+  · rename_i hp
+    simp only [Option.some.injEq, Prod.mk.injEq] at hsucc
+    obtain ⟨rfl, rfl⟩ := hsucc
+    obtain ⟨x, tl, hs⟩ := nonempty_of_cmp cx hp
+    refine (step_throw code lim s sp x tl hs).mono' ?_ ?_ ?_
+    · intro _ _ h; exact h.elim
+    · rintro x' s' _ ⟨h1, ⟨h2, h3, _⟩, h5⟩ msg tsp _ hne s'' ht
+      exact cx.dispatch po.handler po.entry hne h2 h3 h5.symm (by rw [h1, hs]; simp) ht
+    · intro _ _ _ h; exact h
+  · cases hsucc
+
+theorem ret_sound (cx : Ctx code A exact s f rest c fa a B bs hd')
+    (po : PointOK code A f.fn c fa f.ip a .ret sp pops l) (lim : Limits) :
+    Sound code A exact (a.hs ≠ []) (step code lim s .ret sp) := by
+  have hsucc := po.succ
+  simp only [succs] at hsucc
+  split at hsucc
+  · rename_i hr
+    obtain ⟨h1, h2, h3⟩ := hr
+    rw [step_ret]
+    have hcalls : ({ s with calls := s.calls.tail } : VMState).calls = rest := by simp [cx.calls]
+    have hhd : s.handlers = hd' := by rw [cx.hd, h3]; simp [hmap]
+    have hmp : s.mp = B.mb := by rw [cx.mp, h2]; simp
+    have hb : InvL code A exact false rest bs s.stack.length s.mp s.handlers := by
+      rw [hhd, hmp]
+      exact InvL_weaken (by rw [← h1]; exact cx.hcmp) cx.below
+    refine ⟨⟨bs, by rw [hcalls]; exact InvL_top_false hb⟩, ?_⟩
+    -- the caller resumes right after a call instruction, which is not a `copyPush`
+    intro g rest' cg i' sp' n hc' hf' hi' hu hn
+    rw [hcalls] at hc'
+    subst hc'
+    cases bs with
+    | nil => simp [InvL] at hb
+    | cons Bg bs' =>
+      simp only [InvL] at hb
+      obtain ⟨cg', fg, ag, _, hlk, _, _, _, _, _, hret, _⟩ := hb
+      obtain ⟨k, ik, spk, hk1, hk2, hk3⟩ := hret trivial
+      have := lookup_findCode _ _ _ _ _ hlk
+      rw [hf'] at this; cases this
+      rw [hk1] at hn
+      refine (site_fallthrough hk2 ?_ hn).elim
+      intro v e; rw [e] at hk3; cases hk3
+  · cases hsucc
+
+/-- Lemma B: entering a function. `d`: operands removed before the callee starts (0 for
+`callImm`, 2 for `callVal`). -/
+theorem Ctx.call (cx : Ctx code A exact s f rest c fa a B bs hd') (hi : c[f.ip]? = some (i, sp))
+    (hcall : isCall i = true) {g : String} {cg : FnCode} {fg : FnAnn}
+    (hg : lookupFn code A g = some (cg, fg)) {d : Nat} {s' : VMState} {a' : Ann}
+    (hc : s'.calls = ⟨g, 0⟩ :: { f with ip := f.ip + 1 } :: rest)
+    (hlen : s'.stack.length + d = s.stack.length) (hmp : s'.mp = s.mp) (hh : s'.handlers = s.handlers)
+    (hd : d + fg.params ≤ a.h) (hp : fa.pts[f.ip + 1]? = some (some a'))
+    (ha1 : a'.h = a.h - (d + fg.params) + fg.results) (ha2 : a'.off = a.off) (ha3 : a'.hs = a.hs) :
+    Inv code A exact s' := by
+  obtain ⟨_, hentry, _⟩ := verify_fn cx.hv hg
+  have hle := cmp_le cx.hcmp
+  have hmb := cx.mb
+  have hmpe := cx.mp
+  refine ⟨⟨⟨B.b + a.h - d - fg.params, s.mp⟩ :: B :: bs, ?_⟩, ?_⟩
+  · rw [hc]
+    simp only [InvL]
+    refine ⟨cg, fg, _, s.handlers, hg, hentry, ?_, by omega, by simp [hmp], by simp [hmap, hh], by simp, ?_⟩
+    · have := cmp_shift (p := d) (q := 0) cx.hcmp (by omega) (len' := s'.stack.length) (by omega)
+      have e : B.b + a.h - d - fg.params + fg.params = B.b + (a.h - d + 0) := by omega
+      simp only [e]; exact this
+    · refine ⟨c, fa, a', hd', cx.look, hp, cmp_of_eq (by rw [ha1]; omega), cx.mb, by rw [ha2]; exact cx.mp,
+        by rw [ha3]; exact cx.hd, ?_, cx.below⟩
+      intro _; exact ⟨f.ip, i, sp, rfl, hi, hcall⟩
+  · intro f' rest' c' i' sp' n hc' _ _ _ hn
+    rw [hc] at hc'
+    simp only [List.cons.injEq] at hc'
+    obtain ⟨rfl, _⟩ := hc'
+    simp [argcAt_zero] at hn
+
+theorem sigOf_some {g : String} {p q : Nat} (h : sigOf code A g = some (p, q)) :
+    ∃ cg fg, lookupFn code A g = some (cg, fg) ∧ fg.params = p ∧ fg.results = q := by
+  simp only [sigOf, Option.map_eq_some_iff] at h
+  obtain ⟨⟨cg, fg⟩, h1, h2⟩ := h
+  simp only [Prod.mk.injEq] at h2
+  exact ⟨cg, fg, h1, h2.1, h2.2⟩
+
+theorem callImm_sound (cx : Ctx code A exact s f rest c fa a B bs hd') {g : String}
+    (po : PointOK code A f.fn c fa f.ip a (.callImm g) sp pops l) (lim : Limits) :
+    Sound code A exact (a.hs ≠ []) (step code lim s (.callImm g) sp) := by
+  have hsucc := po.succ
+  simp only [succs] at hsucc
+  split at hsucc
+  · rename_i p q hsig
+    obtain ⟨cg, fg, hg, rfl, rfl⟩ := sigOf_some hsig
+    split at hsucc
+    · rename_i hp
+      simp only [Option.some.injEq, Prod.mk.injEq] at hsucc
+      obtain ⟨rfl, rfl⟩ := hsucc
+      have hf1 := po.flow (f.ip + 1, { a with h := a.h - fg.params + fg.results }) (by simp)
+      rw [step_callImm]
+      exact cx.call po.instr rfl hg (d := 0) (by simp [cx.adv]) (by simp) (by simp) (by simp) (by omega) hf1
+        (by simp) rfl rfl
+    · cases hsucc
+  · cases hsucc
+
 end
 
 end HmsProofs.Lemmas.VMCheck
